@@ -7,6 +7,7 @@ snap grid / within 1/192 beat off it, tempo timeline reproduced, every line synt
 """
 from __future__ import annotations
 
+import random
 import re
 from fractions import Fraction
 
@@ -646,6 +647,8 @@ def _run_case_all(case):
         return [("write_raises", f"write returned {type(data).__name__}, not bytes")], obs
     if case.get("via_file"):
         fails += _write_file_fails(case, bytes(data))
+    if case.get("tempo_table_only"):
+        return fails + _tempo_table_fails(case, bytes(data)), obs
 
     # ---- every line syntactically valid
     for ln in data.replace(b"\r\n", b"\n").split(b"\n"):
@@ -786,8 +789,44 @@ def _write_file_fails(case, data):
     return []
 
 
+def _tempo_table_fails(case, data):
+    """Charts with MORE tempo points than the format has measures (000..999) but within the documented number (ids 01..ZZ): the data lines of
+    measures >= 1000 are outside the format and not judged; judged is (a) that the writer produces bytes at all (write_raises, by the caller),
+    (b) the #BPMxx table: one entry per tempo point, pairwise distinct two-character base-36 ids, the values of the chart (3 decimals),
+    (c) every tempo data line of a measure 000..999 refers to the entry holding the tempo of THAT measure line."""
+    want = [(int(m), float(b)) for m, b in case["tempo"]]
+    table = {}
+    for ln in data.split(b"\r\n"):
+        mt = re.match(rb"^#BPM([0-9A-Za-z]{2}) +(\S+)\s*$", ln.strip())
+        if mt:
+            if mt.group(1).upper() in table:
+                return [("tempo_id_table", f"id {mt.group(1)!r} is defined twice in the #BPMxx table")]
+            table[mt.group(1).upper()] = float(mt.group(2))
+    if len(table) != len(want):
+        return [("tempo_id_table", f"the #BPMxx table has {len(table)} entries for {len(want)} tempo points")]
+    if sorted(round(v, 3) for v in table.values()) != sorted(round(b, 3) for _, b in want):
+        return [("tempo_id_table", "the values of the #BPMxx table are not the tempo values of the chart")]
+    by_measure = dict(want)
+    seen = set()
+    for ln in data.split(b"\r\n"):
+        mt = re.match(rb"^#(\d{3})08:((?:[0-9A-Za-z]{2})+)\s*$", ln.strip())
+        if not mt:
+            continue
+        ids = [mt.group(2)[i:i + 2].upper() for i in range(0, len(mt.group(2)), 2)]
+        if any(i != b"00" for i in ids[1:]) or ids[0] not in table:
+            return [("tempo_id_table", f"line {ln.strip()[:40]!r}: expected one defined tempo id on the measure line")]
+        m = int(mt.group(1))
+        seen.add(m)
+        if m not in by_measure or abs(table[ids[0]] - by_measure[m]) > 5.0001e-4:
+            return [("tempo_id_table", f"measure {m}: line {ln.strip()[:40]!r} selects tempo {table[ids[0]]}, the chart has {by_measure.get(m)} there")]
+    need = {m for m, _ in want if m <= 999}
+    if seen != need:
+        return [("tempo_id_table", f"tempo data lines for measures {sorted(need ^ seen)[:5]} missing / unexpected")]
+    return []
+
+
 CLAUSES = (
-    "write_file_equals_write write_file_replaces_existing_file write_raises line_syntax file_well_formed tempo_timeline object_merged_or_dropped lane hit_position_on_grid hit_time_on_grid hit_time_off_grid "
+    "tempo_id_table write_file_equals_write write_file_replaces_existing_file write_raises line_syntax file_well_formed tempo_timeline object_merged_or_dropped lane hit_position_on_grid hit_time_on_grid hit_time_off_grid "
     "hold_head_position_on_grid hold_head_time_on_grid hold_head_time_off_grid hold_tail_position_on_grid hold_tail_time_on_grid hold_tail_time_off_grid known_sample_id read_then_ln_end_id_cleared"
 ).split()
 
@@ -806,6 +845,9 @@ def _grid_cases():
                         p2 = p + Fraction(3, 2)
                         o.update(len=float(tl.ms_of_beat(p2)) - t, grid_tail=g, beat_tail=str(p2) if g else None)
                     yield dict(layout=name, tempo=tempo, lnobj="ZZ", samples={"0K": "k.wav"}, objs=[o], meta=dict(title="grid", artist="", version="", as_bytes=False))
+
+
+TEMPO_COUNTS_BEYOND_THE_MEASURES = (1001, 1259, 1260, 1294)     # (24) boundary of the id space: 1260 = Z0 in base 36, 1294 = ZY, the last count the writer documents
 
 
 def _many_tempo_case(rng, n):
@@ -952,7 +994,7 @@ def bms_write_vs_interpreter(rep):
         f"(all times doubled and tempos halved, undone by the list property setters / the stack / rate(2); every object in another lane, undone by the column setters / the stack; "
         f"without its last hit, hold and tempo point, then <list> = <list>.append(item); a different chart, then every list and field assigned anew) and written again, "
         f"8% tempo values from the ends of the range ({BPM_WIDE[0]} .. {BPM_WIDE[6]}; on-grid demanded only where the float time is within 1e-9 beat of the grid point), 10% int-typed whole-ms columns, 25% numpy scalars, 8% tempo points 40..150 measures apart; "
-        f"1 chart with {big} tempo points (one per measure line); 1/10 of the charts with > 3-decimal bpms (tempo tolerance 0.0005 there); "
+        f"1 chart with {big} tempo points (one per measure line); charts without notes with {TEMPO_COUNTS_BEYOND_THE_MEASURES} tempo points (quick: the last two), more than the format has measures, judged on write completing and on the #BPMxx id table + the tempo lines of measures 000..999 only (tempo_id_table); 1/10 of the charts with > 3-decimal bpms (tempo tolerance 0.0005 there); "
         f"(16) ids that are special only through an optional header / argument as ordinary #WAV ids used by objects: 6% id ZZ (the class default of the LN end id) while the LN end id is another one, 6% id ZZ in a chart without long notes whose "
         f"ln_end_channel is b'' (no #LNOBJ line at all), 5% id 01 (write()'s default placeholder) as a known sample; (14) 12% of the charts give EVERY object a sample and #WAV id of its own; each of the four also once per layout in the edge family; "
         f"ORIGIN read-then-changed (history {READ_HISTORY}), a family generated after all others: {n_read} charts of the general mixture and 5 charts per layout (3 with long notes, 1 of them through write_file, 1 with id ZZ as an ordinary sample beside another LN end id, "
@@ -993,6 +1035,13 @@ def bms_write_vs_interpreter(rep):
             break
         one(case)
     one(_many_tempo_case(rng, big))
+    # the documented NUMBER of tempo points (two-character base-36 ids) is larger than the number of measure lines (1000): such charts leave the
+    # format in their data lines, but the writer documents them and the id table is decided (clause tempo_id_table; no raise: write_raises)
+    for n_t in (TEMPO_COUNTS_BEYOND_THE_MEASURES if rep.tier != "quick" else TEMPO_COUNTS_BEYOND_THE_MEASURES[2:]):
+        c = _many_tempo_case(random.Random(n_t), n_t)
+        c["objs"] = []
+        c["tempo_table_only"] = True
+        one(c)
     for i in range(N):
         if rep.out_of_time(40, 420):
             break
